@@ -92,6 +92,8 @@ def finish(ctx, mod, lean_info):
         'broken_obligations': ctx.broken[:50],
         'disagreements': len(ctx.disagreements),
         'known_findings_hit': [k['key'] for k in ctx.known_hits],
+        'violation_keys': sorted(set(f['key'] for f in ctx.oracle_failures)),
+        'violation_examples': {f['key']: str(f['what'])[:300] for f in ctx.oracle_failures},
         'histogram': ctx.counts,
     }
     cov.update(ctx.cov)
